@@ -80,6 +80,21 @@ type analysis struct {
 	// selfSync: fields whose value synchronises itself (another analysed type, an interface seam, sync/semaphore
 	// primitives, callbacks); a method call through any other field counts as a write of that field
 	selfSync map[string]bool
+	// stores through shared elements (elemwrites.go); nil when the pass is off for this target
+	pt    *pkgTypes
+	ew    *elemWalker
+	elems []elemRec
+}
+
+func (a *analysis) elemStores(s ast.Stmt, h held) {
+	if a.ew == nil {
+		return
+	}
+	for _, l := range a.ew.stores(s) {
+		if el, ok := a.ew.sharedStore(l); ok {
+			a.elems = append(a.elems, elemRec{elem: el, fn: a.fn, line: a.fset.Position(l.Pos()).Line, held: h.clone()})
+		}
+	}
 }
 
 func (a *analysis) fieldOf(e ast.Expr) (string, bool) {
@@ -224,6 +239,7 @@ func (a *analysis) stmt(s ast.Stmt, h held) (held, bool) {
 		a.reads(v.Call, held{})
 		return h, false
 	case *ast.AssignStmt:
+		a.elemStores(v, h)
 		for _, r := range v.Rhs {
 			a.reads(r, h)
 		}
@@ -241,6 +257,7 @@ func (a *analysis) stmt(s ast.Stmt, h held) (held, bool) {
 		}
 		return h, false
 	case *ast.IncDecStmt:
+		a.elemStores(v, h)
 		if f, ok := a.fieldOf(v.X); ok {
 			a.record(f, true, v.Pos(), h)
 		} else {
@@ -388,11 +405,37 @@ func union(a, b held) held {
 
 func isExported(name string) bool { return name != "" && name[0] >= 'A' && name[0] <= 'Z' }
 
-func extractType(repo string, t target) error {
+func parseDir(repo, dir string) (*token.FileSet, []*ast.File, error) {
 	fset := token.NewFileSet()
-	pkgs, err := parser.ParseDir(fset, filepath.Join(repo, t.dir), func(fi os.FileInfo) bool {
+	pkgs, err := parser.ParseDir(fset, filepath.Join(repo, dir), func(fi os.FileInfo) bool {
 		return !strings.HasSuffix(fi.Name(), "_test.go") && !strings.HasPrefix(fi.Name(), "zz_verif")
 	}, 0)
+	if err != nil {
+		return nil, nil, err
+	}
+	var files []*ast.File
+	for _, p := range pkgs {
+		for _, f := range p.Files {
+			files = append(files, f)
+		}
+	}
+	sort.Slice(files, func(i, j int) bool { return fset.Position(files[i].Pos()).Filename < fset.Position(files[j].Pos()).Filename })
+	return fset, files, nil
+}
+
+// trackedIn: the analysed types of a directory whose contents take part in the shared-element pass
+func trackedIn(dir string) []string {
+	var out []string
+	for _, t := range targets {
+		if t.dir == dir && t.only == nil {
+			out = append(out, t.typ)
+		}
+	}
+	return out
+}
+
+func extractType(repo string, t target) error {
+	fset, files, err := parseDir(repo, t.dir)
 	if err != nil {
 		return err
 	}
@@ -402,13 +445,9 @@ func extractType(repo string, t target) error {
 	for _, tt := range targets {
 		analysed[tt.typ] = true
 	}
-	var files []*ast.File
-	for _, p := range pkgs {
-		for _, f := range p.Files {
-			files = append(files, f)
-		}
+	if t.only == nil {
+		a.pt = newPkgTypes(files, trackedIn(t.dir))
 	}
-	sort.Slice(files, func(i, j int) bool { return fset.Position(files[i].Pos()).Filename < fset.Position(files[j].Pos()).Filename })
 	for _, f := range files {
 		ast.Inspect(f, func(n ast.Node) bool {
 			if ts, ok := n.(*ast.TypeSpec); ok {
@@ -499,6 +538,9 @@ func extractType(repo string, t target) error {
 		}
 		a.recv = fd.Recv.List[0].Names[0].Name
 		a.fn = fd.Name.Name
+		if a.pt != nil {
+			a.ew = newElemWalker(a.pt, fd)
+		}
 		a.stmts(fd.Body.List, held{})
 	}
 	// entry locks: what every in-package call site of an unexported method holds (greatest fixpoint)
@@ -576,6 +618,14 @@ func extractType(repo string, t target) error {
 			phase = "prepub"
 		}
 		fmt.Printf("access %s %s %s %s %d locks=%s rlocks=%s phase=%s\n", t.typ, r.field, kind, r.fn, r.line, heldStr(h, 2), heldStr(h, 1), phase)
+	}
+	for _, r := range a.elems {
+		h := union(r.held, entry[r.fn])
+		phase := "run"
+		if t.prepub[r.fn] {
+			phase = "prepub"
+		}
+		fmt.Printf("elemwrite %s %s %s %d locks=%s rlocks=%s phase=%s\n", t.typ, r.elem, r.fn, r.line, heldStr(h, 2), heldStr(h, 1), phase)
 	}
 	return nil
 }
@@ -672,6 +722,40 @@ func extract(repo string) int {
 		if err := extractType(repo, t); err != nil {
 			fmt.Println("error", err)
 			return 1
+		}
+	}
+	seenDir := map[string]bool{}
+	for _, t := range targets {
+		tr := trackedIn(t.dir)
+		if seenDir[t.dir] || len(tr) == 0 {
+			continue
+		}
+		seenDir[t.dir] = true
+		fset, files, err := parseDir(repo, t.dir)
+		if err != nil {
+			fmt.Println("error", err)
+			return 1
+		}
+		pt := newPkgTypes(files, tr)
+		var names []string
+		for n := range pt.ptrShared {
+			names = append(names, n+":ptr")
+		}
+		for n := range pt.valShared {
+			if !pt.ptrShared[n] {
+				names = append(names, n+":val")
+			}
+		}
+		sort.Strings(names)
+		for _, n := range names {
+			fmt.Printf("elemtype %s %s\n", t.dir, n)
+		}
+		trm := map[string]bool{}
+		for _, n := range tr {
+			trm[n] = true
+		}
+		for _, r := range freeFunctionStores(fset, files, pt, trm) {
+			fmt.Printf("elemwrite - %s %s %d locks=- rlocks=- phase=run\n", r.elem, r.fn, r.line)
 		}
 	}
 	sites, bad := prepubSites(repo, "RestoreFromS3", "NewPartitionLog")
